@@ -265,9 +265,9 @@ def updateTransferredEdges (newThread : Nat) : Nat → State → Nat → Option 
     | some s1 => forEachDep (fun s d => updateTransferredEdges newThread fuel s d) s1 (tdepsL s1 query)
 
 inductive TransferKind
-  | noop      -- early `return false`: same (thread, owner) as before
+  | noop      -- early `return false`: same (thread, owner) as before and the owner runs on this thread
   | same      -- entry written, `thread_changed = false`
-  | changed   -- entry written, `thread_changed = true`
+  | changed   -- `thread_changed = true`: entry written, or same entry as before but owned by another thread
   deriving DecidableEq, Repr
 
 /-- The re-pointing `while let Entry::Occupied` loop of `transfer_lock`. -/
@@ -341,7 +341,16 @@ def transferLockCore (s : State) (query cur newOwner : Nat) (ownerId : SyncOwner
     | some true =>
       match transferEntry s query cur newOwner nt with
       | none => none
-      | some none => some (s, .noop, nt)
+      | some none =>
+        -- same `(thread, owner)` as before: the transfer maps are up to date.  A no-op when the owner
+        -- runs on this thread.  Otherwise `cur` had re-claimed `query` and the threads that blocked on
+        -- it meanwhile point at `cur`: they are handed over as for a first transfer (the dependent is
+        -- not registered again).  Before this repair the early return was unconditional.
+        if cur = nt then some (s, .noop, nt)
+        else
+          match afterTransfer s query nt with
+          | none => none
+          | some s7 => some (s7, .changed, nt)
       | some (some (s4, changed)) =>
         match registerDependent s4 query newOwner with
         | none => none
